@@ -49,6 +49,13 @@ func DeepEqual(x, y Node) bool {
 		}
 		return xv == yv
 	case Kind_Int:
+		// Nodes holding unsigned values above the int64 range (UintNode) cannot
+		// answer AsInt; compare those through AsUint instead.
+		xu, xBig := bigUint(x)
+		yu, yBig := bigUint(y)
+		if xBig || yBig {
+			return xBig && yBig && xu == yu
+		}
 		xv, err := x.AsInt()
 		if err != nil {
 			panic(err)
@@ -153,4 +160,18 @@ func DeepEqual(x, y Node) bool {
 	default:
 		return false
 	}
+}
+
+// bigUint reports whether n is a UintNode holding a value that does not fit
+// an int64, and returns that value.
+func bigUint(n Node) (uint64, bool) {
+	un, ok := n.(UintNode)
+	if !ok {
+		return 0, false
+	}
+	v, err := un.AsUint()
+	if err != nil || v <= 1<<63-1 {
+		return 0, false
+	}
+	return v, true
 }
